@@ -43,7 +43,7 @@ def main():
     dest = f"/verif/seeded/{seed_id}"
     os.makedirs(dest, exist_ok=True)
     for f in ("patch.diff", "demo.py", "notes.md"):
-        if os.path.exists(os.path.join(src, f)):
+        if os.path.exists(os.path.join(src, f)) and os.path.realpath(os.path.join(src, f)) != os.path.realpath(os.path.join(dest, f)):
             shutil.copy(os.path.join(src, f), os.path.join(dest, f))
     tmp = tempfile.mkdtemp(prefix="seeded-verify-")
     wt = os.path.join(tmp, "wt")
